@@ -303,27 +303,40 @@ func c18PackageMode(c *Ctx, key string, srcs map[string][]byte, out *ndjson, mod
 			}
 		}
 		if mode == "importer" {
+			// the importer knows fmt (no exported names recorded), lib and lib2 (package objects whose Data scope
+			// holds their exported objects, which is what a dot-import merges into the file scope)
+			exports := map[string][]string{"fmt": {}, "lib": {"Foo", "Bar"}, "lib2": {"Foo", "Baz"}}
 			aimp = func(imports map[string]*ast.Object, path string) (*ast.Object, error) {
-				if path != "fmt" {
+				names, ok := exports[path]
+				if !ok {
 					return nil, fmt.Errorf("cannot import %s", path)
 				}
 				if o := imports[path]; o != nil {
 					return o, nil
 				}
-				o := ast.NewObj(ast.Pkg, "fmt")
-				o.Data = ast.NewScope(nil)
+				o := ast.NewObj(ast.Pkg, path)
+				sc := ast.NewScope(nil)
+				for _, n := range names {
+					sc.Insert(ast.NewObj(ast.Var, n))
+				}
+				o.Data = sc
 				imports[path] = o
 				return o, nil
 			}
 			dimp = func(imports map[string]*dst.Object, path string) (*dst.Object, error) {
-				if path != "fmt" {
+				names, ok := exports[path]
+				if !ok {
 					return nil, fmt.Errorf("cannot import %s", path)
 				}
 				if o := imports[path]; o != nil {
 					return o, nil
 				}
-				o := dst.NewObj(dst.Pkg, "fmt")
-				o.Data = dst.NewScope(nil)
+				o := dst.NewObj(dst.Pkg, path)
+				sc := dst.NewScope(nil)
+				for _, n := range names {
+					sc.Insert(dst.NewObj(dst.Var, n))
+				}
+				o.Data = sc
 				imports[path] = o
 				return o, nil
 			}
@@ -410,12 +423,21 @@ func checkC18(c *Ctx) {
 	// packages: hand-written multi-file packages with redeclarations, undeclared names, cycles
 	pk := &ndjson{}
 	pkgs := map[string]map[string][]byte{
-		"clean": {"a.go": []byte("package p\n\nvar A = B + 1\n\nfunc F() int { return A }\n"), "b.go": []byte("package p\n\nvar B = 2\n\ntype T struct{ next *T }\n\nfunc (t *T) M() *T { return t.next }\n")},
-		"redeclared": {"a.go": []byte("package p\n\nvar A = 1\n\nfunc F() {}\n"), "b.go": []byte("package p\n\nvar A = 2\n\nfunc F() {}\n\ntype A int\n")},
-		"undeclared": {"a.go": []byte("package p\n\nvar A = missing + other.X\n\nfunc F() { undefinedCall(); var x = y }\n")},
+		"clean":       {"a.go": []byte("package p\n\nvar A = B + 1\n\nfunc F() int { return A }\n"), "b.go": []byte("package p\n\nvar B = 2\n\ntype T struct{ next *T }\n\nfunc (t *T) M() *T { return t.next }\n")},
+		"redeclared":  {"a.go": []byte("package p\n\nvar A = 1\n\nfunc F() {}\n"), "b.go": []byte("package p\n\nvar A = 2\n\nfunc F() {}\n\ntype A int\n")},
+		"undeclared":  {"a.go": []byte("package p\n\nvar A = missing + other.X\n\nfunc F() { undefinedCall(); var x = y }\n")},
 		"mixed-names": {"a.go": []byte("package p\n\nvar A = 1\n"), "b.go": []byte("package q\n\nvar B = A\n")},
-		"imports": {"a.go": []byte("package p\n\nimport \"fmt\"\n\nfunc A() { fmt.Println(len(\"a\")) }\n"), "b.go": []byte("package p\n\nfunc B(x int, s string) rune { var r rune; return r }\n"), "c.go": []byte("package p\n\nimport \"os\"\n\nvar C = os.Args\n\nvar D bool = true\n")},
-		"cycle": {"a.go": []byte("package p\n\ntype A struct{ b *B }\n\nvar X = Y\n"), "b.go": []byte("package p\n\ntype B struct{ a *A }\n\nvar Y = X\n\nconst (\n\tC0 = iota\n\tC1\n)\n")},
+		"imports":     {"a.go": []byte("package p\n\nimport \"fmt\"\n\nfunc A() { fmt.Println(len(\"a\")) }\n"), "b.go": []byte("package p\n\nfunc B(x int, s string) rune { var r rune; return r }\n"), "c.go": []byte("package p\n\nimport \"os\"\n\nvar C = os.Args\n\nvar D bool = true\n")},
+		// every import form against an importer that knows the package's exported objects
+		"dot-clean":                {"a.go": []byte("package p\n\nimport . \"lib\"\n\nvar X = Foo + Bar\n"), "b.go": []byte("package p\n\nvar Y = X\n")},
+		"dot-collision-other-file": {"a.go": []byte("package p\n\nimport . \"lib\"\n\nvar X = Foo\n"), "b.go": []byte("package p\n\nfunc Foo() {}\n")},
+		"dot-collision-same-file":  {"a.go": []byte("package p\n\nimport . \"lib\"\n\nvar Bar = 1\n\nvar Y = missing\n")},
+		"dot-dot-collision":        {"a.go": []byte("package p\n\nimport (\n\t. \"lib\"\n\t. \"lib2\"\n)\n\nvar X = Foo + Baz\n")},
+		"dot-unknown":              {"a.go": []byte("package p\n\nimport . \"nowhere\"\n\nvar X = Foo\n"), "b.go": []byte("package p\n\nimport . \"lib\"\n\nvar Y = Bar + Qux\n")},
+		"alias-collision":          {"a.go": []byte("package p\n\nimport l \"lib\"\n\nvar X = l.Foo\n"), "b.go": []byte("package p\n\nvar l = 1\n")},
+		"name-twice":               {"a.go": []byte("package p\n\nimport (\n\t\"lib\"\n\tlib \"fmt\"\n)\n\nvar X = lib.Foo\n")},
+		"blank-and-plain":          {"a.go": []byte("package p\n\nimport (\n\t_ \"lib\"\n\t\"lib2\"\n)\n\nvar X = lib2.Baz\n\nvar lib2 = 0\n")},
+		"cycle":                    {"a.go": []byte("package p\n\ntype A struct{ b *B }\n\nvar X = Y\n"), "b.go": []byte("package p\n\ntype B struct{ a *A }\n\nvar Y = X\n\nconst (\n\tC0 = iota\n\tC1\n)\n")},
 	}
 	var keys []string
 	for k := range pkgs {
